@@ -275,7 +275,39 @@ pub fn run(run: &mut Run) {
                 run.acc.violation("c13:custom", format!("Easing::Custom: calc({x}) = {y}, inner function saw {:?}", log), case_json(2, i as u64, vec![("x", J::F(x as f64))]));
             }
         }
+        // several *different* custom easings asked for the same x back to back (what a timeline does when
+        // neighbouring properties use different custom easings): each must be called and used as given
+        for i in 0..4000u32 {
+            let x = if i % 7 == 0 { [0.0f32, 1.0, 0.5, 0.25][(i / 7) as usize % 4] } else { r.unit() as f32 };
+            let ids: Vec<u32> = (0..(2 + i % 4)).map(|k| (i + k * 3) % 10).collect();
+            rec_log_take();
+            let ys: Vec<f32> = ids.iter().map(|id| Easing::Custom(Box::new(RecEasing { id: *id })).calc(x)).collect();
+            let log = rec_log_take();
+            run.acc.eval();
+            let want_log: Vec<(u32, f32)> = ids.iter().map(|id| (*id, x)).collect();
+            let want_ys: Vec<u32> = ids.iter().map(|id| rec_pure(*id, x).to_bits()).collect();
+            if log != want_log || ys.iter().map(|y| y.to_bits()).collect::<Vec<_>>() != want_ys {
+                run.acc.violation(
+                    "c13:custom-sequence",
+                    format!("custom easings {:?} asked for x={x} in a row returned {:?}; their functions saw {:?}", ids, ys, log),
+                    case_json(3, i as u64, vec![("x", J::F(x as f64)), ("ids", J::A(ids.iter().map(|i| J::U(*i as u64)).collect()))]),
+                );
+            }
+        }
+        // the same built-in asked again after a different built-in was asked for the same x gives the same bits
+        for i in 0..2000u32 {
+            let x = r.unit() as f32;
+            let a = (i % 29) as usize;
+            let b = ((i / 29) % 29) as usize;
+            let (ya, yb, ya2) = (builtin(a).calc(x), builtin(b).calc(x), builtin(a).calc(x));
+            run.acc.eval();
+            let _ = yb;
+            if ya.to_bits() != ya2.to_bits() {
+                run.acc.violation("c13:builtin-sequence", format!("{}({x}) then {}({x}) then {}({x}) gave {ya}, {yb}, {ya2}", BUILTIN_NAMES[a], BUILTIN_NAMES[b], BUILTIN_NAMES[a]), case_json(4, i as u64, vec![("x", J::F(x as f64))]));
+            }
+        }
         run.acc.sig("custom|as-given");
+        run.acc.sig("custom|sequence-of-different-customs-same-x");
     }
     if thorough {
         run.exhaustive = Some(true);
